@@ -421,6 +421,13 @@ void Ccp4<T>::setup(T default_value, MapSetup mode) {
     if (end_i > INT_MAX || end_i < INT_MIN)
       fail("Ccp4::setup(): NXSTART+NX, NYSTART+NY or NZSTART+NZ is out of range");
   }
+  // (size_t) nu * nv * nw must not wrap around
+  auto count_overflows = [](int a, int b, int c) {
+    return a > 0 && b > 0 && c > 0 && (std::uint64_t) a * b > SIZE_MAX / (std::uint64_t) c;
+  };
+  if (count_overflows(grid.nu, grid.nv, grid.nw) ||
+      (mode != MapSetup::ReorderOnly && count_overflows(sampl[0], sampl[1], sampl[2])))
+    fail("Ccp4::setup(): the number of grid points in the header is too large");
   int end[3] = { start[0] + grid.nu, start[1] + grid.nv, start[2] + grid.nw };
   // set new metadata
   if (mode == MapSetup::ReorderOnly) {
